@@ -165,7 +165,7 @@ class CaseGen:
             by_target.setdefault(tuple(a[1]), []).append(i)
         runner = ImplRunner(scenario, sd, modes, arg_style=cfg.get("arg_style", "plain"))
         ops, outs = [], []
-        weights = cfg.get("op_weights", dict(step=0.72, gen=0.12, reset=0.05, goal=0.08, mask=0.03))
+        weights = cfg.get("op_weights", dict(step=0.74, gen=0.12, reset=0.05, goal=0.09, mask=0.0))
         if not modes[1]:
             weights = dict(weights, mask=0.0)
         names_, ws = zip(*weights.items())
@@ -199,7 +199,7 @@ class CaseGen:
         errs = getattr(runner, "last_error", None)
         self.stats["scenario:" + ("random" if name == "random" else "named")] += 1
         self.stats[f"hosts:{len(sd['hosts'])}"] += 1
-        return dict(name=name, sd=sd, modes=modes, ops=ops, cmd=[0, wire, modes, ops], impl=outs, errs=errs,
+        return dict(name=name, sd=sd, modes=modes, ops=ops, cmd=[0, wire, modes, ops], impl=outs, errs=errs, impl_init=runner.init_wire,
                     arg_style=cfg.get("arg_style", "plain"))
 
     def note(self, op, out, flat):
@@ -227,6 +227,123 @@ class CaseGen:
                 st["draw_used"] += 1
 
 
+def has_bad(x):
+    if isinstance(x, list):
+        return any(has_bad(y) for y in x)
+    return x == -7
+
+
+def wire_actions(case, flat_cache={}):
+    """the decoded wire action of every step/gen op of a case (None when undecodable);
+    decoding is done by the model (flat list / decode_param): action decoding itself is C11's"""
+    sdw = case["cmd"][1]
+    vecs = []
+    for op in case["ops"]:
+        if op[0] in (1, 2):
+            x = op[1] if op[0] == 1 else op[2]
+            if x[0] == 1:
+                vecs.append(x[1])
+    cmds = [[1, sdw]] + ([[2, sdw, vecs]] if vecs else [])
+    res = run_driver(cmds)
+    flat = res[0][0]
+    dec = res[1] if vecs else []
+    it = iter(dec)
+    out = []
+    for op in case["ops"]:
+        if op[0] not in (1, 2):
+            out.append(None)
+            continue
+        x = op[1] if op[0] == 1 else op[2]
+        if x[0] == 0:
+            out.append(flat[x[1]] if x[1] < len(flat) and case["modes"][1] else None)
+        elif x[0] == 1:
+            d = next(it)
+            out.append(d[0] if d and not case["modes"][1] else None)
+        else:
+            out.append(x[1])
+    return out
+
+
+def records_of(case):
+    """one record per implementation step of the case:
+    (op index, [state before, action, draw, state after, result, used, reward, done])
+    plus the (op index, state) pairs of goal queries and resets; states are the implementation's own"""
+    acts = wire_actions(case)
+    recs, goals, resets = [], [], []
+    pool = [case["impl_init"]]
+    cur = case["impl_init"]
+    for i, (op, out) in enumerate(zip(case["ops"], case["impl"])):
+        if out[0] == 9:
+            continue
+        if op[0] == 0:
+            resets.append((i, cur, out[2]))
+            cur = out[2]
+            pool.append(cur)
+        elif op[0] == 1:
+            st_after = out[1][0]
+            if acts[i] is not None:
+                recs.append((i, [cur, acts[i], op[2], st_after, out[1][4], out[1][5], out[1][2], out[1][3]]))
+            cur = st_after
+            pool.append(cur)
+        elif op[0] == 2:
+            st_before = pool[op[1]] if op[1] < len(pool) else None
+            st_after = out[1][0]
+            if acts[i] is not None and st_before is not None:
+                recs.append((i, [st_before, acts[i], op[3], st_after, out[1][4], out[1][5], out[1][2], out[1][3]]))
+            pool.append(st_after)
+        elif op[0] == 3:
+            if op[1] < len(pool):
+                goals.append((i, pool[op[1]], out[1]))
+    return recs, goals, resets
+
+
+STEP_FIELDS = ["state", "obs", "reward", "done", "success", "value", "flags", "info", "disc", "used"]
+
+
+def resync_compare(cases, fields, jobs=8):
+    """Per-step correspondence: the model's generative_step / goal / reset are evaluated on the
+    implementation's OWN pre-state of every step, so one divergence does not cascade.
+    Returns list of (case, op index, field, impl value, model value, record)."""
+    cmds, index = [], []
+    for c in cases:
+        recs, goals, resets = records_of(c)
+        recs = [(i, r) for i, r in recs if not has_bad(r[0]) and not has_bad(r[1])]
+        goals = [g for g in goals if not has_bad(g[1])]
+        resets = [g for g in resets if not has_bad(g[1])]
+        sdw, m = c["cmd"][1], c["modes"]
+        if recs:
+            cmds.append([5, sdw, m, [[r[0], r[1], r[2]] for _, r in recs]])
+            index.append(("step", c, recs))
+        if goals or resets:
+            cmds.append([6, sdw, [g[1] for g in goals] + [g[1] for g in resets]])
+            index.append(("goal", c, (goals, resets)))
+        c["n_records"] = len(recs)
+    outs = run_driver_parallel(cmds, jobs=jobs) if cmds else []
+    diffs = []
+    for (kind, c, payload), out in zip(index, outs):
+        if out == [-1]:
+            diffs.append((c, 0, "model-rejects-input", None, None, None))
+            continue
+        if kind == "step":
+            for (i, r), mo in zip(payload, out):
+                impl_o = c["impl"][i]
+                da = split_out([2, impl_o[1], 0])
+                db = split_out([2, mo, 0])
+                for f in STEP_FIELDS:
+                    if f in fields and da.get(f) != db.get(f):
+                        diffs.append((c, i, f, da.get(f), db.get(f), r))
+                        break
+        else:
+            goals, resets = payload
+            for (i, st, impl_goal), mo in zip(goals, out[:len(goals)]):
+                if "goal" in fields and impl_goal != mo[0]:
+                    diffs.append((c, i, "goal", impl_goal, mo[0], [st]))
+            for (i, st, impl_after), mo in zip(resets, out[len(goals):]):
+                if "reset" in fields and (impl_after != mo[1] or not mo[2]):
+                    diffs.append((c, i, "reset", impl_after, mo[1], [st]))
+    return diffs
+
+
 def run_stream(prop, seed, ncases, nops, cfg=None, jobs=8):
     """Generates cases, runs both sides; returns (report dict, list of disagreeing cases)."""
     cfg = dict(cfg or {})
@@ -237,7 +354,9 @@ def run_stream(prop, seed, ncases, nops, cfg=None, jobs=8):
         n = nops if isinstance(nops, int) else rng.randint(*nops)
         cases.append(gen.gen_case(n))
     model = run_driver_parallel([c["cmd"] for c in cases], jobs=jobs)
-    fields = FIELDS[cfg.get("fields", prop)] if cfg.get("fields", prop) in FIELDS else FIELDS["all"]
+    fields = cfg.get("traj_fields")
+    if fields is None:
+        fields = FIELDS[cfg.get("fields", prop)] if cfg.get("fields", prop) in FIELDS else FIELDS["all"]
     bad = []
     nontrivial = set()
     for c, m in zip(cases, model):
@@ -258,6 +377,10 @@ def run_stream(prop, seed, ncases, nops, cfg=None, jobs=8):
                 if prev is None or cur != prev or not out[1][4][0]:
                     nontrivial.add(key)
                 prev = cur
+    rdiffs = []
+    if cfg.get("resync_fields"):
+        rdiffs = resync_compare(cases, cfg["resync_fields"], jobs=jobs)
     report = dict(cases=len(cases), ops=gen.stats["ops"], stats=dict(gen.stats),
-                  distinct_nontrivial=len(nontrivial), disagreements=len(bad))
-    return report, bad, cases
+                  distinct_nontrivial=len(nontrivial), disagreements=len(bad), resync_disagreements=len(rdiffs),
+                  resync_steps=sum(c.get("n_records", 0) for c in cases))
+    return report, bad, cases, rdiffs
